@@ -16,6 +16,7 @@ import (
 
 	"github.com/dadrus/heimdall/internal/verifsim/bubble"
 	"github.com/dadrus/heimdall/internal/verifsim/simcore"
+	"github.com/dadrus/heimdall/internal/verifsim/simkeys"
 )
 
 // C11: cached results are reused exactly for requests equal in all they depend on.
@@ -314,7 +315,7 @@ func c11Build(s *simcore.Source) c11Scenario {
 		sc.describe = fmt.Sprintf("headers=%v", hkeys)
 	case "jwt-finalizer":
 		sc.party = ""
-		sc.mech = "mechanisms:\n  authenticators:" + c11Authn + "  finalizers:\n    - id: mut\n      type: jwt\n      config:\n        signer:\n          name: heimdall\n          key_store:\n            path: " + fixturePath("ec256") +
+		sc.mech = "mechanisms:\n  authenticators:" + c11Authn + "  finalizers:\n    - id: mut\n      type: jwt\n      config:\n        signer:\n          name: heimdall\n          key_store:\n            path: " + simkeys.FixturePath("ec256") +
 			"\n        ttl: 5m\n        claims: '{\"role\": {{ quote .Subject.Attributes.role }}, \"rule\": \"r1\"}'\n"
 		step1 := "    - authenticator: user\n    - finalizer: mut"
 		step2 := step1
@@ -360,7 +361,7 @@ func normaliseToken(h string) string {
 	if tok == "" {
 		return ""
 	}
-	if pl, err := jwtPayload(tok); err == nil {
+	if pl, err := simkeys.JWTPayload(tok); err == nil {
 		for _, k := range []string{"iat", "nbf", "exp", "jti"} {
 			delete(pl, k)
 		}
